@@ -75,4 +75,35 @@ theorem acyclic_snoc {F : Edges} {a b : Nat} (hF : Acyclic F) (hab : ¬ Conn F a
 
 theorem acyclic_nil : Acyclic [] := by intro e he; cases he
 
+/-- a list in which no element survives its own removal has no duplicates -/
+theorem nodup_of_not_mem_erase {α : Type} [BEq α] [LawfulBEq α] : ∀ (l : List α), (∀ e, e ∈ l → e ∉ l.erase e) → l.Nodup := by
+  intro l
+  induction l with
+  | nil => intro _; exact List.nodup_nil
+  | cons x xs ih =>
+    intro h
+    have hx : x ∉ xs := by simpa using h x List.mem_cons_self
+    refine List.nodup_cons.mpr ⟨hx, ih ?_⟩
+    intro e he
+    have hne : e ≠ x := fun hh => hx (hh ▸ he)
+    have := h e (List.mem_cons_of_mem _ he)
+    rw [List.erase_cons_tail (by simpa using Ne.symm hne)] at this
+    exact fun hh => this (List.mem_cons_of_mem _ hh)
+
+/-- a cycle-free pair list has no doubled pair -/
+theorem Acyclic.nodup {F : Edges} (h : Acyclic F) : F.Nodup :=
+  nodup_of_not_mem_erase F fun e he hm => h e he (Conn.of_mem (by simpa using hm))
+
+/-- cycle-free edges that all occur in the input form a sub-multiset of the input -/
+theorem subMulti_of_acyclic {F inp : List WEdge} (hsub : ∀ e, e ∈ F → e ∈ inp) (hac : Acyclic (ends F)) :
+    SubMulti F inp := by
+  intro e
+  have hnd : F.Nodup := List.Pairwise.of_map (S := fun a b => a ≠ b) (fun e : WEdge => (e.1, e.2.1))
+    (fun a b hab hh => hab (by rw [hh])) hac.nodup
+  by_cases he : e ∈ F
+  · have h1 : F.count e = 1 := by rw [hnd.count, if_pos he]
+    have h2 : 0 < inp.count e := List.count_pos_iff.mpr (hsub e he)
+    omega
+  · rw [List.count_eq_zero_of_not_mem he]; exact Nat.zero_le _
+
 end Tbx.Comp
